@@ -23,18 +23,18 @@ from fractions import Fraction
 import numpy as np
 
 NS = 'AbacusVerif.Bitpacked.'
-THEOREMS_FULL = [NS + t for t in [
+THEOREMS = [NS + t for t in [
     'consts_documented',
     'rvPos_layout', 'rvPos_bits', 'rvVel_layout', 'rvVel_range', 'rvPos_top_bit',
     'rv_fields_independent', 'rv_scales',
     'rv_decode_encWord', 'rv_roundtrip_pos', 'rv_roundtrip_vel',
     'aux_lagrCoord_layout', 'aux_lagrIdx_layout', 'aux_lagrPos_layout', 'aux_tagged_layout',
     'aux_density_layout', 'aux_pid_layout', 'pid_has_only_id_bits', 'aux_fields_independent',
+    'aux_fields_ignore_other_bits',
     'kernel_spec', 'kernel_oob',
     'unpackRvint_spec', 'unpackPids_spec', 'outputs_independent_of_selection',
     'emptyArrays_all',
 ]]
-THEOREMS = []  # DEV
 LEAN_MODULES = ['AbacusVerif.Generated.BitConsts', 'AbacusVerif.Props.C04']
 DRIVER = 'drv_c04'
 RULE = ('a case is one (word, decoder entry point, float dtype, Box/ppd, output selection) evaluation compared '
@@ -64,6 +64,11 @@ class CountingSet(set):
 
     def __len__(self):
         return set.__len__(self) + self.extra
+
+
+def sample(ctx, case):
+    if len(ctx.samples) < 16:
+        ctx.samples.append(json.loads(json.dumps(case, default=str)))
 
 
 def bulk(ctx, label, n_eval, n_distinct):
@@ -392,8 +397,10 @@ def check_rv_bulk(ctx, bp, M, words, boxes, label):
             bulk(ctx, '%s:%s' % (label, dtype.__name__), len(words), 0)
             ctx.count('rv-exact-scale' if exact_scale else 'rv-2ulp-scale', len(words))
     ctx.distinct.extra += len(np.unique(words))
-    ctx.case(dict(sweep=label, n_words=len(words), first_words=[int(x) for x in words[:6]],
-                  model_pos=[int(x) for x in pm[:6]], model_vel=[int(x) for x in vm[:6]], boxes=[float(b) for b in boxes]))
+    c = dict(sweep=label, n_words=len(words), first_words=[int(x) for x in words[:6]],
+             model_pos=[int(x) for x in pm[:6]], model_vel=[int(x) for x in vm[:6]], boxes=[float(b) for b in boxes])
+    ctx.case(c)
+    sample(ctx, c)
 
 
 # ----------------------------------------------------------------------------------------- RVint selection modes
@@ -459,6 +466,8 @@ def check_rv_selection(ctx, bp, M):
             case = dict(entry='unpack_rvint', words=[int(x) for x in words], box=float(box), box_type=type(box).__name__,
                         dtype=dtype.__name__, posout=pm_, velout=vm_)
             ctx.case(case, nontrivial=N > 0)
+            if (pm_, vm_) in (('U', 'S'), ('A', 'Ubig')) and dtype == np.float32:
+                sample(ctx, case)
             ctx.count('rv-select:%s/%s' % (pm_, vm_))
             mres = M.q(['unpack_rvint %s %s %s %s' % (rs(frac(box)), preq, vreq, ','.join(map(str, words.tolist())) or '-')])[0]
             try:
@@ -707,8 +716,10 @@ def check_aux_bulk(ctx, bp, M, words, boxppd, label):
                 ctx.count('lagr-exact' if exact else 'lagr-3ulp', 3 * len(words))
             bulk(ctx, '%s:%s' % (label, dtype.__name__), len(words), 0)
     ctx.distinct.extra += len(np.unique(words))
-    ctx.case(dict(sweep=label, n_words=len(words), first_words=[int(x) for x in words[:4]],
-                  model={k: [int(x) for x in v[:4]] for k, v in m.items()}))
+    c = dict(sweep=label, n_words=len(words), first_words=[int(x) for x in words[:4]],
+             model={k: [int(x) for x in v[:4]] for k, v in m.items()})
+    ctx.case(c)
+    sample(ctx, c)
 
 
 # ----------------------------------------------------------------------------------------- pid selection
@@ -756,6 +767,8 @@ def check_pid_selection(ctx, bp, M):
             kw = dict(zip(PID_NAMES, sel))
             case = dict(entry='unpack_pids', words=[int(x) for x in words], box=box, ppd=float(ppd), dtype=dtype.__name__, select=kw)
             ctx.case(case)
+            if sel in ((True, False, True, False, False), (False, True, False, True, True)) and dtype == np.float32:
+                sample(ctx, case)
             ctx.count('pid-select:%d-outputs' % sum(sel))
             mres = M.q(['unpack_pids %s %s %s %s' % (rs(frac(box)), rs(frac(ppd)), ''.join('1' if s else '0' for s in sel),
                                                      ','.join(map(str, words.tolist())))])[0]
@@ -804,6 +817,8 @@ def check_pid_selection(ctx, bp, M):
         (dict(lagr_pos=True, ppd=100), 'None', '100', '01000'),
         (dict(lagr_pos=True, box=2000.0, ppd=100.0000001), '2000', rs(frac(100.0000001)), '01000'),
         (dict(lagr_pos=True, box=2000.0, ppd=100.4), '2000', rs(frac(100.4)), '01000'),
+        (dict(lagr_pos=True, box=2000.0, ppd=99.9999999), '2000', rs(frac(99.9999999)), '01000'),
+        (dict(lagr_pos=True, lagr_idx=True, box=2000.0, ppd=np.float32(511.999999)), '2000', rs(frac(np.float32(511.999999))), '01001'),
         (dict(pid=True, ppd=99.5), 'None', rs(frac(99.5)), '10000'),
         (dict(pid=True, ppd=0), 'None', '0', '10000'),
         (dict(lagr_pos=True, box=2000.0, ppd=0), '2000', '0', '01000'),
@@ -921,8 +936,14 @@ def check_empty(ctx, bp, M):
 # ----------------------------------------------------------------------------------------- exhaustive 2^32
 
 def exhaustive_rvint(ctx, bp, M):
-    """every int32 word through the compiled kernel (float32 and float64 outputs, one non-dyadic box),
-    against the model tables T_pos[w >> 12], T_vel[w & 0xFFF]"""
+    """every int32 word through the compiled kernel (float32 and float64 outputs, one non-dyadic box).
+
+    Step 1: the implementation's own tables  I_pos[u] = decode(u << 12),  I_vel[l] = decode(l)  are compared with the
+            model tables T_pos, T_vel emitted by the Lean driver (positions within 2 ulp of T_pos*Box/10^6, velocities
+            exactly) and with the documented layout.
+    Step 2: for every one of the 2^32 words w the implementation's output must be *bitwise* I_pos[w >> 12], I_vel[w & 0xFFF]
+            — the implementation-side counterpart of theorem rv_fields_independent, checked rather than assumed.
+    """
     Tpos = M.rvtable('pos')        # index u = upper 20 bits as unsigned
     Tvel = M.rvtable('vel')
     box = 2000.0
@@ -930,44 +951,56 @@ def exhaustive_rvint(ctx, bp, M):
     mps, mvs = M.rvscale(B)
     Epos = cr_table([int(p) * mps.numerator for p in Tpos], mps.denominator)
     Evel = Tvel.astype(np.float64) * float(mvs)
-    # oracle tables
     u = np.arange(2 ** 20, dtype=np.int64)
     Opos_int = np.where(u >= 2 ** 19, u - 2 ** 20, u)
     Ovel_int = np.arange(4096, dtype=np.int64) - 2048
     if not np.array_equal(Opos_int, Tpos) or not np.array_equal(Ovel_int, Tvel):
-        ctx.disagree('model tables differ from the documented layout', dict(entry='rvtable'), None, None)
-    chunk = 3 * 2 ** 22
+        k = first_bad(Opos_int != Tpos)
+        ctx.disagree('model tables differ from the documented layout', dict(entry='rvtable', first_pos_index=k), None, None)
+    Opos = cr_table([int(p) * B.numerator for p in Opos_int], B.denominator * 10 ** 6)
+    Ovel = Ovel_int.astype(np.float64) * float(VELSCALE)
+    chunk = 3 * 2 ** 21
     total = 2 ** 32
-    nbad = 0
     for dtype in (np.float32, np.float64):
-        Ep = Epos.astype(dtype)
-        Ev = Evel.astype(dtype)
-        Eo = ordint(Ep)
+        wu = (np.arange(2 ** 20, dtype=np.uint32) << np.uint32(12))
+        wl = np.arange(4098, dtype=np.uint32)           # 4098 = multiple of 3; only the first 4096 are used
+        Ipos = bp.unpack_rvint(np.concatenate([wu, wu[:2]]).view(np.int32), box, float_dtype=dtype, velout=False)[0].reshape(-1)[:2 ** 20]
+        Ivel = bp.unpack_rvint(wl.view(np.int32), box, float_dtype=dtype, posout=False)[1].reshape(-1)[:4096]
+        for who, Ep, Ev in (('model', Epos, Evel), ('oracle', Opos, Ovel)):
+            k = first_bad(ulpdist(Ipos, Ep.astype(dtype)) > 2)
+            if k is not None:
+                w = int(wu[k]); w = w - 2 ** 32 if w >= 2 ** 31 else w
+                case = dict(entry='unpack_rvint', word=w, box=box, dtype=dtype.__name__, field='pos')
+                if who == 'model':
+                    ctx.disagree('exhaustive rvint: position table', case, float(Ep[k]), float(Ipos[k]))
+                else:
+                    ctx.fail('rvint position is not (signed upper 20 bits)*Box/1e6 (exhaustive table)', case, float(Ipos[k]), float(Ep[k]), key='rvint-pos')
+            k = first_bad(Ivel != Ev.astype(dtype))
+            if k is not None:
+                case = dict(entry='unpack_rvint', word=int(k), box=box, dtype=dtype.__name__, field='vel')
+                if who == 'model':
+                    ctx.disagree('exhaustive rvint: velocity table', case, float(Ev[k]), float(Ivel[k]))
+                else:
+                    ctx.fail('rvint velocity is not (lower 12 bits - 2048)*6000/2048 (exhaustive table)', case, float(Ivel[k]), float(Ev[k]), key='rvint-vel')
+        nbad = 0
         start = 0
         while start < total:
             n = min(chunk, total - start)
             n3 = n + (-n) % 3
-            wu = (np.arange(start, start + n3, dtype=np.uint64) % np.uint64(2 ** 32)).astype(np.uint32)
-            data = wu.view(np.int32).reshape(-1, 3)
-            pos, vel = bp.unpack_rvint(data, box, float_dtype=dtype)
+            wv = (np.arange(start, start + n3, dtype=np.uint64) & np.uint64(0xFFFFFFFF)).astype(np.uint32)
+            pos, vel = bp.unpack_rvint(wv.view(np.int32), box, float_dtype=dtype)
             pos = pos.reshape(-1)
             vel = vel.reshape(-1)
-            iu = (wu >> np.uint32(12)).astype(np.int64)
-            il = (wu & np.uint32(0xFFF)).astype(np.int64)
-            badp = np.abs(ordint(pos) - Eo[iu]) > 2
-            badv = vel != Ev[il]
-            for bad, field, got, exp in ((badp, 'pos', pos, Ep[iu]), (badv, 'vel', vel, Ev[il])):
-                k = first_bad(bad)
-                if k is not None and nbad < 4:
+            for bad, field in ((pos != Ipos[wv >> np.uint32(12)], 'pos'), (vel != Ivel[wv & np.uint32(0xFFF)], 'vel')):
+                if bad.any() and nbad < 4:
                     nbad += 1
-                    w = int(wu[k])
-                    w = w - 2 ** 32 if w >= 2 ** 31 else w
+                    k = first_bad(bad)
+                    w = int(wv[k]); w = w - 2 ** 32 if w >= 2 ** 31 else w
                     op, ov = oracle_rv_py(w)
                     ex = rs(op * B / 10 ** 6) if field == 'pos' else rs(ov * VELSCALE)
-                    case = dict(entry='unpack_rvint', word=w, box=box, dtype=dtype.__name__, field=field)
-                    ctx.disagree('exhaustive rvint %s' % field, case, float(exp[k]), float(got[k]))
-                    ctx.fail('rvint %s does not follow the documented layout (exhaustive sweep)' % field, case, float(got[k]), ex,
-                             key='rvint-' + field)
+                    got = float(pos[k] if field == 'pos' else vel[k])
+                    ctx.fail('rvint %s of a word is not determined by its own bit field (exhaustive sweep)' % field,
+                             dict(entry='unpack_rvint', word=w, box=box, dtype=dtype.__name__, field=field), got, ex, key='rvint-' + field)
             start += n
         bulk(ctx, 'rv-exhaustive:%s' % dtype.__name__, total, 0)
     ctx.distinct.extra += total
